@@ -620,6 +620,12 @@ theorem influxUnescapeTag_expected : Generated.C16.influxUnescapeTagSrc =
 theorem influxUnescapeMetricName_expected : Generated.C16.influxUnescapeMetricNameSrc =
   "if bytes.IndexByte(in, '\\\\') == -1 { return in } ; for i := range metricNameEscapeCodes { c := &metricNameEscapeCodes[i] if bytes.IndexByte(in, c.k[0]) != -1 { in = bytes.ReplaceAll(in, c.esc[:], c.k[:]) } } ; return in" := rfl
 
+/-- influx parseField, float branch: a NaN / ±Inf result of ParseFloat is NOT turned into a droppable
+"bad field" — it reaches RowBuilder.AddSimpleField, whose NaN/Inf rule (the flat/influx counterpart of
+`Err.nanField` / `Err.infField`) rejects the whole line -/
+theorem influxParseFieldFloatBranch_expected : Generated.C16.influxParseFieldFloatBranchSrc =
+  "v, err := strconv.ParseFloat(lf, 64) ; if err != nil { return nil, ErrBadFields } ; return toLinSimpleField(unescapedKey, v), nil" := rfl
+
 /-- The variant of KeyValues.Less the code has selects the variant of `less` the driver runs
 (`Generated.C16.lessTieBreakOnValue`); the variant of the append path selects `appendAll`'s `clears`
 (`Generated.C16.appendClearsMark`). The theorems above hold for both values of both flags; the
